@@ -84,7 +84,7 @@ def stub_lines(args, test):
         shutil.rmtree(d, ignore_errors=True)
 
 
-def segment_case(ck, n, x, seed, ignore, nruns, family):
+def segment_case(ck, n, x, seed, ignore, nruns, family, njobs=1):
     args = ('-n %d ' % n if n is not None else '') + ('-x %d ' % x if x is not None else '') + '-r %d' % seed
     nn, xx = (2000 if n is None else n), (1 if x is None else x)
     emitted = len(range(0, nn, xx)) + 1
@@ -93,7 +93,7 @@ def segment_case(ck, n, x, seed, ignore, nruns, family):
     def impl():
         d = tempfile.mkdtemp(prefix='c15-seg-')
         try:
-            return call_impl(ag.segment, list(TEXT), args=args, nruns=nruns, njobs=1, ignore_first_parses=ignore, tempdir=d)
+            return call_impl(ag.segment, list(TEXT), args=args, nruns=nruns, njobs=njobs, ignore_first_parses=ignore, tempdir=d)
         finally:
             shutil.rmtree(d, ignore_errors=True)
 
@@ -127,7 +127,7 @@ def segment_case(ck, n, x, seed, ignore, nruns, family):
                 return 'utterance %d: tie not broken independently of arrival order' % i
         return None
     return dict(op=1502, arg=[len(TEXT), s2j(args), ignore, [text2j(r) for r in runs]], site='ag.segment',
-                desc={'args': args, 'ignore_first_parses': ignore, 'nruns': nruns, 'family': family},
+                desc={'args': args, 'ignore_first_parses': ignore, 'nruns': nruns, 'njobs': njobs, 'family': family},
                 impl=impl, dec=lambda w: decode_result(w, j2text), oracle=oracle,
                 nontrivial=lambda m: True)
 
@@ -245,9 +245,12 @@ def main():
         emitted = len(range(0, n, x)) + 1
         for ig in range(-emitted - 1, emitted + 2):
             if ck.thorough or rng.random() < 0.5:
-                cases.append(segment_case(ck, n, x, 100 + n, ig, rng.randint(1, 3), 'ignore-grid'))
+                nr = rng.randint(1, 3)
+                # the answer must not depend on the job count (runs share one ParseCounter across threads)
+                cases.append(segment_case(ck, n, x, 100 + n, ig, nr, 'ignore-grid', njobs=rng.randint(1, 4)))
     cases.append(segment_case(ck, None, 400, 5, -1, 1, 'default-n'))
-    cases.append(segment_case(ck, 6, None, 5, -2, 2, 'default-x'))
+    cases.append(segment_case(ck, 6, None, 5, -2, 2, 'default-x', njobs=2))
+    cases.append(segment_case(ck, 7, 2, 9, -2, 4, 'four-runs', njobs=4))
     for _ in range(600 if ck.thorough else 80):
         cases.append(yield_case(rng))
     for _ in range(600 if ck.thorough else 80):
